@@ -1,19 +1,20 @@
 /-
-  Round trip of the multipart machine (single-level multipart/form-data) for EVERY split of the body:
+  Round trip of the multipart machine (form fields and nested multipart/mixed) for EVERY split of the body:
   quiescence (`quiescent_*`), one loop iteration (`mpIter_rt`), the loop (`mpLoop_rt`), one call
   (`postProcessMultipart_rt`, `feed_rt`), all calls (`feedAll_rt`) and the complete life of a post
-  processor (`multipart_roundtrip`).
+  processor (`multipart_items_roundtrip`; `multipart_roundtrip` for the reference encoder).
 -/
-import Mhd.Proofs.PPMpStep
+import Mhd.Proofs.PPMxStep
 namespace Mhd.PP
 
 /-- which phases can be quiescent, and what the rest of the stream looks like there -/
-theorem quiescent_cases {c : Cfg} {pp : PP} {R : Bytes} (hb : MBase c pp) (hI : MInv c pp R) (hq : Quiescent pp) :
+theorem quiescent_cases {c : Cfg} (hc : CfgOk c) {pp : PP} {R : Bytes} (hb : MBase c pp) (hI : MInv c pp R)
+    (hq : Quiescent pp) :
     pp.buf = [] ∨
-    (pp.buf.length < 2 + c.B.length ∧ R = sDashDash ++ c.B ++ afterB c.B c.parts) ∨
+    (∃ Bd tl, Bd.length + 4 < c.size ∧ pp.buf.length < 2 + Bd.length ∧ R = sDashDash ++ Bd ++ tl) ∨
     (∃ lines Z, lineEnd pp.buf = pp.buf.length ∧ (∀ ln ∈ lines, LineOk c.size ln) ∧ R = linesEnc lines ++ cCR :: Z) ∨
-    (∃ p rest off, p ∈ c.parts ∧ off ≤ p.value.length ∧ scanBoundary pp.buf c.B c.size 0 = .partialAt 0 ∧
-      R = p.value.drop off ++ sCRLFDashDash ++ (c.B ++ afterB c.B rest)) := by
+    (∃ Bd v off tl, 1 ≤ Bd.length ∧ Bd.length + 4 < c.size ∧ FreshFor Bd v ∧ off ≤ v.length ∧
+      scanBoundary pp.buf Bd c.size 0 = .partialAt 0 ∧ R = v.drop off ++ sCRLFDashDash ++ (Bd ++ tl)) := by
   rcases hq with h | ⟨hrn, hq⟩
   · exact Or.inl h
   · cases hI with
@@ -22,31 +23,64 @@ theorem quiescent_cases {c : Cfg} {pp : PP} {R : Bytes} (hb : MBase c pp) (hI : 
       subst hX
       cases hm with
       | bnd0 hs he hm hX2 =>
-        rcases hq with ⟨_, h⟩ | ⟨h, _⟩ | ⟨h, _⟩
-        · exact Or.inr (Or.inl ⟨by rw [← hb.bnd]; exact h, hX2⟩)
-        · rw [hs] at h; cases h
-        · rw [hs] at h; cases h
-      | hdr done p rest lines hsp hd hs hl hX2 =>
-        rcases hq with ⟨h, _⟩ | ⟨h, hle⟩ | ⟨h, _⟩
-        · rcases hs with ⟨hs, _⟩ | ⟨hs, _⟩ <;> (rw [hs] at h; cases h)
-        · exact Or.inr (Or.inr (Or.inl ⟨lines, _, hle, hl, hX2⟩))
-        · rcases hs with ⟨hs, _⟩ | ⟨hs, _⟩ <;> (rw [hs] at h; cases h)
-      | chk done p rest hsp hd hs hm hi hX2 =>
-        rcases hq with ⟨h, _⟩ | ⟨h, _⟩ | ⟨h, _⟩ <;> (rw [hs] at h; cases h)
+        rcases hq with ⟨h | h, x⟩ | ⟨h | h, x⟩ | ⟨h, x⟩ | ⟨h, x⟩ | ⟨h, x⟩
+        all_goals first | (rw [hs] at h; cases h; done) | skip
+        exact Or.inr (Or.inl ⟨c.B, _, hc.bs, by rw [← hb.bnd]; exact x, hX2⟩)
+      | hdr done it rest lines hsp hd hs hl hX2 =>
+        rcases hq with ⟨h | h, x⟩ | ⟨h | h, x⟩ | ⟨h, x⟩ | ⟨h, x⟩ | ⟨h, x⟩
+        all_goals first | (rcases hs with ⟨hs, _⟩ | ⟨hs, _⟩ <;> (rw [hs] at h; cases h; done)) | skip
+        exact Or.inr (Or.inr (Or.inl ⟨lines, _, x, hl, hX2⟩))
+      | chk done it rest hsp hd hs hm hi hX2 =>
+        rcases hq with ⟨h | h, x⟩ | ⟨h | h, x⟩ | ⟨h, x⟩ | ⟨h, x⟩ | ⟨h, x⟩
+        all_goals (rw [hs] at h; cases h)
       | val done p rest off evs0 cur hsp hd he hp hi hs hm ho hle hX2 =>
-        rcases hq with ⟨h, _⟩ | ⟨h, _⟩ | ⟨_, h⟩
-        · rw [hs] at h; cases h
-        · rw [hs] at h; cases h
-        · exact Or.inr (Or.inr (Or.inr ⟨p, rest, off, by rw [hsp]; simp, hle, by rw [← hb.bnd, ← hb.size]; exact h, hX2⟩))
+        have hfr : FreshFor c.B p.value := by
+          have := hc.items (.field p) (by rw [hsp]; simp)
+          cases this with
+          | field _ h _ => exact h.fresh
+        rcases hq with ⟨h | h, x⟩ | ⟨h | h, x⟩ | ⟨h, x⟩ | ⟨h, x⟩ | ⟨h, x⟩
+        all_goals first | (rw [hs] at h; cases h; done) | skip
+        exact Or.inr (Or.inr (Or.inr ⟨c.B, p.value, off, _, hc.b1, hc.bs, hfr, hle, by rw [← hb.bnd, ← hb.size]; exact x, hX2⟩))
+      | ninit done ls name ct nb inner rest hsp hd hs hn hm hX2 =>
+        have ns : nb.length + 4 < c.size := by
+          have hok := hc.items (Item.mixed ls name ct nb inner) (by rw [hsp]; simp)
+          cases hok with
+          | mixed _ _ _ _ _ _ _ _ _ _ ns _ => exact ns
+        rcases hq with ⟨h | h, x⟩ | ⟨h | h, x⟩ | ⟨h, x⟩ | ⟨h, x⟩ | ⟨h, x⟩
+        all_goals first | (rw [hs] at h; cases h; done) | skip
+        obtain ⟨nb', hn', hlt⟩ := x
+        rw [hn] at hn'; cases hn'
+        exact Or.inr (Or.inl ⟨nb, _, ns, hlt, hX2⟩)
+      | nhdr done ls name ct nb inner rest idone q qs lines hsp hin hd hn hs hl hX2 =>
+        rcases hq with ⟨h | h, x⟩ | ⟨h | h, x⟩ | ⟨h, x⟩ | ⟨h, x⟩ | ⟨h, x⟩
+        all_goals first | (rcases hs with ⟨hs, _⟩ | ⟨hs, _⟩ | ⟨hs, _⟩ <;> (rw [hs] at h; cases h; done)) | skip
+        exact Or.inr (Or.inr (Or.inl ⟨lines, _, x, hl, hX2⟩))
+      | nval done ls name ct nb inner rest idone q qs off evs0 cur hsp hin hd he hp hi hs hn hmk hm ho hle hX2 =>
+        obtain ⟨n1, ns, hfr⟩ : 1 ≤ nb.length ∧ nb.length + 4 < c.size ∧ FreshFor nb q.value := by
+          have hok := hc.items (Item.mixed ls name ct nb inner) (by rw [hsp]; simp)
+          cases hok with
+          | mixed _ _ _ _ _ _ _ _ _ n1 ns hin' => exact ⟨n1, ns, (hin' q (by rw [hin]; simp)).fresh⟩
+        rcases hq with ⟨h | h, x⟩ | ⟨h | h, x⟩ | ⟨h, x⟩ | ⟨h, x⟩ | ⟨h, x⟩
+        all_goals first | (rw [hs] at h; cases h; done) | skip
+        obtain ⟨nb', hn', hsc⟩ := x
+        rw [hn] at hn'; cases hn'
+        exact Or.inr (Or.inr (Or.inr ⟨nb, q.value, off, _, n1, ns, hfr, hle, by rw [← hb.size]; exact hsc, hX2⟩))
+      | nnext done rest hsp hd hs hX2 =>
+        rcases hq with ⟨h | h, x⟩ | ⟨h | h, x⟩ | ⟨h, x⟩ | ⟨h, x⟩ | ⟨h, x⟩
+        all_goals first | (rw [hs] at h; cases h; done) | skip
+        exact Or.inr (Or.inl ⟨c.B, _, hc.bs, by rw [← hb.bnd]; exact x, hX2⟩)
     | fin0 hd hr hds hR => rw [hr] at hrn; cases hrn
     | fin1 hd hr hds hR => rw [hr] at hrn; cases hrn
     | fin2 hd hs hr =>
-      rcases hq with ⟨h, _⟩ | ⟨h, _⟩ | ⟨h, _⟩ <;> (rw [hs] at h; cases h)
+      rcases hq with ⟨h | h, x⟩ | ⟨h | h, x⟩ | ⟨h, x⟩ | ⟨h, x⟩ | ⟨h, x⟩
+      all_goals (rw [hs] at h; cases h)
+    | nfin0 done rest hsp hd hr hds hR => rw [hr] at hrn; cases hrn
+    | nfin1 done rest hsp hd hr hds hR => rw [hr] at hrn; cases hrn
 
 theorem quiescent_not_full {c : Cfg} (hc : CfgOk c) {pp : PP} {pend : Bytes} (hb : MBase c pp)
     (hI : MInv c pp (pp.buf ++ pend)) (hq : Quiescent pp) : pp.buf.length < c.size := by
   have hbs := hc.bs
-  rcases quiescent_cases hb hI hq with h | ⟨h, _⟩ | ⟨lines, Z, hle, hl, hR⟩ | ⟨p, rest, off, _, _, hs, _⟩
+  rcases quiescent_cases hc hb hI hq with h | ⟨Bd, tl, h1, h2, _⟩ | ⟨lines, Z, hle, hl, hR⟩ | ⟨Bd, v, off, tl, _, h2, _, _, hs, _⟩
   · rw [h]; simp; omega
   · omega
   · cases lines with
@@ -78,14 +112,17 @@ theorem quiescent_not_full {c : Cfg} (hc : CfgOk c) {pp : PP} {pend : Bytes} (hb
   · have := scanBoundary_partial_zero _ _ _ _ hs
     omega
 
-theorem afterB_ne_nil (B : Bytes) (ps : List Part) : afterB B ps ≠ [] := by
-  cases ps <;> simp [afterB]
+theorem afterB_ne_nil (B : Bytes) (ps : List Item) : afterB B ps ≠ [] := by
+  cases ps with
+  | nil => simp [afterB]
+  | cons it r => rw [afterB_cons]; simp
 
 /-- when the whole stream has been received and the machine is quiescent, it is in `PP_Done` and has
     delivered every field -/
 theorem quiescent_final {c : Cfg} (hc : CfgOk c) {pp : PP} (hb : MBase c pp) (hI : MInv c pp (pp.buf ++ []))
-    (hq : Quiescent pp) : pp.state = .done ∧ Delivers pp.evs (c.parts.map fieldOf) := by
-  rcases quiescent_cases hb hI hq with h | ⟨h, hR⟩ | ⟨lines, Z, hle, hl, hR⟩ | ⟨p, rest, off, hpm, hoff, hs, hR⟩
+    (hq : Quiescent pp) : pp.state = .done ∧ Delivers pp.evs (flat c.items) := by
+  rcases quiescent_cases hc hb hI hq with h | ⟨Bd, tl, _, h, hR⟩ | ⟨lines, Z, hle, hl, hR⟩ |
+      ⟨Bd, v, off, tl, hB1, hBs, hocc, hoff, hs, hR⟩
   · rw [h] at hI
     cases hI with
     | main X hr hm =>
@@ -96,17 +133,24 @@ theorem quiescent_final {c : Cfg} (hc : CfgOk c) {pp : PP} (hb : MBase c pp) (hI
         · cases h
       subst hX
       cases hm with
-      | bnd0 hs he hm hX2 =>
-        have := congrArg List.length hX2; simp [sDashDash] at this
-      | hdr done p rest lines hsp hd hs hl hX2 =>
-        have := congrArg List.length hX2; simp at this
-      | chk done p rest hsp hd hs hm hi hX2 =>
-        have := congrArg List.length hX2; simp [sCRLFDashDash] at this
+      | bnd0 hs he hm hX2 => have := congrArg List.length hX2; simp [sDashDash] at this
+      | hdr done it rest lines hsp hd hs hl hX2 => have := congrArg List.length hX2; simp at this
+      | chk done it rest hsp hd hs hm hi hX2 =>
+        cases it <;> (have := congrArg List.length hX2; simp [itemBody, sCRLFDashDash, sDashDash] at this)
       | val done p rest off evs0 cur hsp hd he hp hi hs hm ho hle hX2 =>
         have := congrArg List.length hX2; simp [sCRLFDashDash] at this
+      | ninit done ls name ct nb inner rest hsp hd hs hn hm hX2 =>
+        have := congrArg List.length hX2; simp [sDashDash] at this
+      | nhdr done ls name ct nb inner rest idone q qs lines hsp hin hd hn hs hl hX2 =>
+        have := congrArg List.length hX2; simp at this
+      | nval done ls name ct nb inner rest idone q qs off evs0 cur hsp hin hd he hp hi hs hn hmk hm ho hle hX2 =>
+        have := congrArg List.length hX2; simp [sCRLFDashDash] at this
+      | nnext done rest hsp hd hs hX2 => have := congrArg List.length hX2; simp [sDashDash] at this
     | fin0 hd hr hds hR => cases hR
     | fin1 hd hr hds hR => cases hR
     | fin2 hd hs hr => exact ⟨hs, hd⟩
+    | nfin0 done rest hsp hd hr hds hR => cases hR
+    | nfin1 done rest hsp hd hr hds hR => cases hR
   · exfalso
     have := congrArg List.length hR
     simp [sDashDash] at this
@@ -124,13 +168,12 @@ theorem quiescent_final {c : Cfg} (hc : CfgOk c) {pp : PP} (hb : MBase c pp) (hI
       rw [hR, lineEnd_app ln _ hlo.2.1] at hle
       simp at hle
   · exfalso
-    have hocc := fresh_of_cfg c hc p hpm
-    have hfr : ∀ k, k < (p.value.drop off).length →
-        slice (pp.buf ++ []) k (k + 4 + c.B.length) ≠ sCRLFDashDash ++ c.B := by
-      intro k hk; rw [hR]; exact fresh_drop c.B p.value _ off k hocc hoff hk
-    obtain ⟨sf, _⟩ := scanBoundary_fresh c.B (p.value.drop off) (afterB c.B rest) pp.buf [] c.size hc.b1 hR hfr
-      (by have := hc.bs; omega) 0 (Nat.zero_le _) (Nat.zero_le _)
-    have hlen : (p.value.drop off).length + 4 + c.B.length ≤ pp.buf.length := by
+    have hfr : ∀ k, k < (v.drop off).length →
+        slice (pp.buf ++ []) k (k + 4 + Bd.length) ≠ sCRLFDashDash ++ Bd := by
+      intro k hk; rw [hR]; exact fresh_drop Bd v _ off k hocc hoff hk
+    obtain ⟨sf, _⟩ := scanBoundary_fresh Bd (v.drop off) tl pp.buf [] c.size hB1 hR hfr
+      (by omega) 0 (Nat.zero_le _) (Nat.zero_le _)
+    have hlen : (v.drop off).length + 4 + Bd.length ≤ pp.buf.length := by
       have := congrArg List.length hR
       simp only [List.append_nil, List.length_append, sCRLFDashDash, List.length_cons, List.length_nil] at this
       omega
@@ -173,7 +216,7 @@ theorem mpIter_rt (c : Cfg) (hc : CfgOk c) (d future : Bytes) (pp : PP) (l : ML)
       (({ pp with buf := pp.buf ++ slice d l.poff (l.poff + mx) } : PP).buf ++ (d.drop (l.poff + mx) ++ future)) := by
     show MInv c _ (pp.buf ++ slice d l.poff (l.poff + mx) ++ (d.drop (l.poff + mx) ++ future))
     rw [List.append_assoc, ← List.append_assoc (slice _ _ _), slice_drop_app]
-    exact hI.congr rfl rfl rfl rfl rfl rfl rfl
+    exact hI.congr ⟨rfl, rfl, rfl, rfl, rfl, rfl, rfl, rfl, rfl, rfl, rfl⟩ rfl
   have hne1 : ({ pp with buf := pp.buf ++ slice d l.poff (l.poff + mx) } : PP).buf ≠ [] := by
     intro h
     have := congrArg List.length h
@@ -333,24 +376,83 @@ theorem create_mp_facts (n : Nat) (ctype : Bytes) (pp0 : PP) (hc : create n ctyp
           · simp only [List.length_take, List.length_drop]; omega
           · omega
 
-/-- **Round trip, single-level multipart/form-data, every split.** -/
+
+/-- **Round trip for rendered bodies — form fields and nested multipart/mixed containers, every split.** -/
+theorem multipart_items_roundtrip (n : Nat) (ctype : Bytes) (pp0 : PP) (items : List Item) (chunks : List Bytes)
+    (hc : create n ctype = some pp0) (hu : pp0.isUrl = false) (hB : 1 ≤ pp0.boundary.length)
+    (hit : ∀ it ∈ items, ItemOk (n + 4) pp0.boundary it)
+    (hch : chunks.flatten = encodeItems pp0.boundary items) :
+    ∃ pp, run n ctype chunks = some (pp, true) ∧ pp.fault = none ∧ Delivers pp.evs (flat items) ∧
+      ∀ pre ch post, chunks = pre ++ ch :: post → (feed (feedAll pp0 pre) ch).2 = true := by
+  obtain ⟨c1, c2, c3, c4, c5, c6, c7, c8, c9⟩ := create_mp_facts n ctype pp0 hc hu
+  have hcfg : CfgOk ⟨pp0.boundary, n + 4, items⟩ := ⟨hB, c2, hit⟩
+  have hb0 : MBase ⟨pp0.boundary, n + 4, items⟩ pp0 := ⟨c1, rfl, c7, c8⟩
+  have hgood : GoodRt ⟨pp0.boundary, n + 4, items⟩ pp0 (chunks.flatten ++ []) := by
+    refine ⟨⟨[], create_multipart_mpend n ctype pp0 hc hu⟩, hb0, ?_, Or.inl c6⟩
+    rw [c6, List.nil_append, List.append_nil, hch]
+    exact .main _ (Or.inl ⟨c4, rfl⟩) (.bnd0 c3 c5 c9 rfl)
+  obtain ⟨⟨_, hb, hI, hq⟩, hyes⟩ := feedAll_rt _ hcfg chunks pp0 [] hgood
+  obtain ⟨hdone, hdel⟩ := quiescent_final hcfg hb hI hq
+  refine ⟨feedAll pp0 chunks, ?_, hb.fault, hdel, hyes⟩
+  have hfs : (feedAll pp0 chunks).fault.isSome = false := by rw [hb.fault]; rfl
+  simp [run, hc, destroy, hfs, hdone, hb.xbuf]
+
+/-! ### the reference encoder `encodeMultipart` as a rendering -/
+
+def dispLine (p : Part) : Bytes :=
+  ofStr "Content-Disposition: form-data; name=\"" ++ p.name ++ [cQuote]
+  ++ (match p.filename with | some f => ofStr "; filename=\"" ++ f ++ [cQuote] | none => [])
+
+/-- the header lines of a part as `encPartHeaders` writes them, without their CRLF -/
+def hdrLines (p : Part) : List Bytes :=
+  dispLine p :: ((match p.ctype with | some t => [ofStr "Content-Type: " ++ t] | none => []) ++
+    (match p.enc with | some e => [ofStr "Content-Transfer-Encoding: " ++ e] | none => []))
+
+theorem encPartHeaders_eq (p : Part) : encPartHeaders p = linesEnc (hdrLines p) ++ [cCR, cLF] := by
+  unfold encPartHeaders hdrLines dispLine
+  cases p.filename <;> cases p.ctype <;> cases p.enc <;> simp [linesEnc, sCRLF]
+
+def metaP (p : Part) : Meta := ⟨some p.name, p.filename, p.ctype, p.enc⟩
+def fieldOf (p : Part) : Meta × Bytes := (metaP p, p.value)
+def toItem (p : Part) : Item := .field ⟨hdrLines p, metaP p, p.value⟩
+
+theorem afterB_toItem (B : Bytes) : ∀ ps : List Part, sDashDash ++ B ++ afterB B (ps.map toItem) = encodeMultipart B ps
+  | [] => by simp [encodeMultipart, afterB, sDashDash, sCRLF]
+  | p :: rest => by
+    have ih := afterB_toItem B rest
+    simp only [List.map_cons, toItem, afterB, encodeMultipart, encPartHeaders_eq] at ih ⊢
+    rw [← ih]
+    simp [sDashDash, sCRLF, sCRLFDashDash]
+
+theorem flat_toItem : ∀ ps : List Part, flat (ps.map toItem) = ps.map fieldOf
+  | [] => rfl
+  | p :: rest => by simp [toItem, flat, rfield, fieldOf, flat_toItem rest]
+
+/-- side conditions on one part of the reference encoding -/
+structure PartOk (size : Nat) (p : Part) : Prop where
+  lines : ∀ ln ∈ hdrLines p, LineOk size ln
+  hdr : (hdrLines p).foldl hdrM none4 = metaP p
+  notMixed : ∀ ct, p.ctype = some ct → eqCaselessN ct sMixed sMixed.length = false
+
+/-- **Round trip, single-level multipart/form-data in the reference encoding, every split.** -/
 theorem multipart_roundtrip (n : Nat) (ctype : Bytes) (pp0 : PP) (parts : List Part) (chunks : List Bytes)
     (hc : create n ctype = some pp0) (hu : pp0.isUrl = false) (hB : 1 ≤ pp0.boundary.length)
     (hfresh : boundaryFresh pp0.boundary parts = true) (hp : ∀ p ∈ parts, PartOk (n + 4) p)
     (hch : chunks.flatten = encodeMultipart pp0.boundary parts) :
     ∃ pp, run n ctype chunks = some (pp, true) ∧ pp.fault = none ∧ Delivers pp.evs (parts.map fieldOf) ∧
       ∀ pre ch post, chunks = pre ++ ch :: post → (feed (feedAll pp0 pre) ch).2 = true := by
-  obtain ⟨c1, c2, c3, c4, c5, c6, c7, c8, c9⟩ := create_mp_facts n ctype pp0 hc hu
-  have hcfg : CfgOk ⟨pp0.boundary, n + 4, parts⟩ := ⟨hB, c2, hfresh, hp⟩
-  have hb0 : MBase ⟨pp0.boundary, n + 4, parts⟩ pp0 := ⟨c1, rfl, c7, c8⟩
-  have hgood : GoodRt ⟨pp0.boundary, n + 4, parts⟩ pp0 (chunks.flatten ++ []) := by
-    refine ⟨⟨[], create_multipart_mpend n ctype pp0 hc hu⟩, hb0, ?_, Or.inl c6⟩
-    rw [c6, List.nil_append, List.append_nil, hch]
-    exact .main _ (Or.inl ⟨c4, rfl⟩) (.bnd0 c3 c5 c9 (encodeMultipart_eq _ _))
-  obtain ⟨⟨_, hb, hI, hq⟩, hyes⟩ := feedAll_rt _ hcfg chunks pp0 [] hgood
-  obtain ⟨hdone, hdel⟩ := quiescent_final hcfg hb hI hq
-  refine ⟨feedAll pp0 chunks, ?_, hb.fault, hdel, hyes⟩
-  have hfs : (feedAll pp0 chunks).fault.isSome = false := by rw [hb.fault]; rfl
-  simp [run, hc, destroy, hfs, hdone, hb.xbuf]
+  have hit : ∀ it ∈ parts.map toItem, ItemOk (n + 4) pp0.boundary it := by
+    intro it hit
+    simp only [List.mem_map] at hit
+    obtain ⟨p, hpm, rfl⟩ := hit
+    have hpo := hp p hpm
+    have hfr : FreshFor pp0.boundary p.value := by
+      unfold boundaryFresh at hfresh
+      rw [List.all_eq_true] at hfresh
+      simpa [FreshFor] using hfresh p hpm
+    exact .field _ ⟨hpo.lines, hpo.hdr, hfr⟩ hpo.notMixed
+  have := multipart_items_roundtrip n ctype pp0 (parts.map toItem) chunks hc hu hB hit
+    (by rw [hch]; exact (afterB_toItem _ _).symm)
+  rwa [flat_toItem] at this
 
 end Mhd.PP
